@@ -694,6 +694,8 @@ def run(ctx) -> None:
     ctx.guard(forwarding_discipline, "R14.12", ['key', 'obj', 'find_key', 'public_key', 'private_key'], 40)  # arguments are handed on under their own name (generic routing rule, rules/common.py)
     ctx.guard(r14_14)
     ctx.guard(r14_16)
+    from .c04 import r04_3 as _r04_3
+    ctx.guard_as("R14.18", _r04_3)  # "encryption with a kid uses exactly that key ... produce a token that the matching key set decrypts": a kid given in any header position (the shared unprotected one included) is written out
     ctx.guard(r14_1)
     ctx.guard(r14_2)
     ctx.guard(r14_10)
